@@ -138,7 +138,8 @@ check('C10', 'proof',
       'the TIMEX P[T]N<U> the duration parser writes denotes exactly N of that unit), duration_value_matches_timex, '
       'unit_tables_consistent (the duration tables of EVERY culture, regenerated from the working tree each run, assign each '
       'spelling the length of its unit code — kernel-checked), luis_time_span_inverse, between_dates_consistent (the '
-      '(begin,end,PnD) triple is self-consistent for ALL valid dates begin <= end). The property predicate tripleOK is a Lean '
+      '(begin,end,PnD) triple is self-consistent for ALL valid dates begin <= end), between_times_consistent (the '
+      '(THH:MM:SS,THH:MM:SS,PT…) triple written with luis_time_span is self-consistent for ALL times t1 < t2). The property predicate tripleOK is a Lean '
       'function evaluated through the compiled driver on every range entity the real model returns over all Python-supported '
       'DateTime Specs inputs; pipeline: N x every unit spelling of every culture, ordered pairs of absolute dates and clock '
       'times ("from A to B", "between A and B").',
